@@ -22,12 +22,18 @@ RULE = ('ops generated from one PRNG state: constructor / re-wrap / list-of-time
         'public entry point (TimeArray with every container, copy=False, UniformTime and its attributes / elements / slices, Epochs, Events, '
         'TimeSeries) -> 1-6 steps of re-wrapping (copy True/False/absent, unit given/None/absent), convert_unit, views of views, copies, '
         'pickling, reductions, arithmetic -> one of the 9 operators; after every step label, payload and the factor shown by (o+1)-o are '
-        'observed; distinct = distinct protocol line; non-trivial = payload not all zero')
+        'observed; RAW FLAG VALUES (None, False, True, 0, 0.0, \'\', [], np.False_, np.bool_(0), np.True_, 1, \'False\'): TimeArray(data, unit, copy=<each>) '
+        'x 17 data kinds + time objects, and every optional / boolean parameter of UniformTime / TimeSeries / TimeArray / Epochs / Events '
+        'constructors and index_at given each raw value (read as GIVEN vs as-if-None, against the generated comparison forms); the numbers 0 / 1 '
+        'also arrive as python / numpy booleans; distinct = distinct protocol line; non-trivial = payload not all zero')
 ASSUMPTIONS = ['numpy int64/float64 arithmetic follows IEEE-754 binary64 / two\'s complement (the F64 model is checked bit-for-bit against it in this run)',
                'magnitudes stay below 2^62 ps (the property\'s domain); overflow beyond it is not modelled',
                'narrow dtypes are exact embeddings: a float32/float16/intN value crosses the protocol as the number it denotes']
 TRUSTED_EXTRA = ['harness/translate_c01.py: abstract interpretation of TimeArray.__new__ / __array_finalize__ / convert_unit / UniformTime.__new__ / '
                  'reductions into Generated/C01Ctor.lean (label / factor source per return path); `unset` is read as "what __array_finalize__ left"',
+                 'harness/translate_c01.py: flag_tests_of — which AST shapes count as a test of a parameter (compare with True/False/None, truthiness in if / not / '
+                 'and-or / comprehension over parameters); the NO-COPY branch of TimeArray.__new__ = the branch of the `if` on `copy` that does not use conv_fac',
+                 'harness table _cells(): which call exercises which (function, parameter) of the generated flagTests table',
                  'which history step of the harness maps to which model step (view kinds -> `view`, pickle / view of a bare array -> `strip`)']
 
 UNITS = ['ps', 'ns', 'us', 'ms', 's', 'm', 'h', 'D', 'W']
@@ -463,6 +469,9 @@ def cases(rng, tier, seed):
                             'binop/%s/%s' % (opn, kd_), meta=meta))
     # --- object histories (copy=False / views / copies / pickling / reductions, sources from every class)
     out += hist_cases(rng, 700 * n)
+    # --- raw flag values for `copy` (round 4): every value class x data kind, all units over the run
+    out += flag_cases(rng, n)
+    out += flagarg_cases()
     # --- reductions and convert_unit
     for it in range(150 * n):
         u, sc, ps = gen_T(rng, big=False)
@@ -529,13 +538,18 @@ def pick_int_container(rng, ks):
 def num_variant(v, how):
     """one integer as python int / numpy scalars / 0-d array / whole float (L3: constructor parameters)"""
     return {'int': int, 'npint64': np.int64, 'npint32': np.int32, 'arr0d': (lambda x: np.array(x, dtype=np.int64)),
-            'float': float, 'npfloat64': np.float64}[how](v)
+            'float': float, 'npfloat64': np.float64,
+            # round 4 (L3, sharper): the numbers 0 and 1 as the booleans a caller may hold (False == 0, np.False_ == 0 …): a
+            # parameter tested with `is None` must take them as the NUMBER, not as "not given"
+            'pybool': bool, 'npbool': np.bool_}[how](v)
 
 
 def pick_num_variant(rng, v):
     ok = ['int', 'npint64', 'arr0d', 'float', 'npfloat64']
     if abs(v) < 2**31:
         ok.append('npint32')
+    if v in (0, 1) and rng.random() < 0.4:
+        return rng.choice(['pybool', 'npbool'])
     return rng.choice(ok)
 
 
@@ -714,7 +728,7 @@ def gen_source(rng):
         if rng.random() < 0.5:   # an explicit start, 0 / 0.0 included, read in the SERIES' unit
             t0k = rng.choice([0, 0, 1, -1])
             if abs(t0k * FACTOR[lab]) + n * kd * f < HIST_LIM:
-                sp['t0_arg'], sp['h0'] = t0k, rng.choice(['int', 'float', 'npint64'])
+                sp['t0_arg'], sp['h0'] = t0k, rng.choice(['int', 'float', 'npint64'] + (['pybool', 'npbool'] if t0k in (0, 1) else []))
                 t0 = t0k * FACTOR[lab]
     val = {'t0': [t0], 'sampling_interval': [kd * f], 'duration': [n * kd * f], 'time': [t0 + i * kd * f for i in range(n)]}[attr]
     return sp, ('U' if attr == 'time' else 'T'), lab, attr != 'time', val
@@ -1077,6 +1091,234 @@ def hist_cases(rng, n):
     return out
 
 
+# ------------------------------------------------------------------ round 4 (L3, sharper): raw flag values for `copy`
+# Every value class a caller can hand to the boolean parameter: the documented special case is copy=False (data must be a time
+# object or an int64 array IN BASE UNITS); values EQUAL to False (0, 0.0, np.False_, np.bool_(0)) mean the same, everything else
+# (None = numpy 2's "copy if needed", '', [], True, 1, 'False', np.True_) must build the time value x unit.
+FLAGS = {'none': lambda: None, 'false': lambda: False, 'true': lambda: True, 'int0': lambda: 0, 'float0': lambda: 0.0,
+         'estr': lambda: '', 'elist': lambda: [], 'npfalse': lambda: np.False_, 'npbool0': lambda: np.bool_(0),
+         'nptrue': lambda: np.True_, 'int1': lambda: 1, 'strfalse': lambda: 'False'}
+FLAG_MEANS_NOCOPY = {'false', 'int0', 'float0', 'npfalse', 'npbool0'}    # the documented copy=False and what equals it
+FLAG_KINDS = ['int64', 'npint64', 'arr0d', 'roint64', 'stridedint64', 'pyint', 'list', 'int32', 'float64', 'pyfloat', 'uint8',
+              'beint64', 'npint32', 'arr0df', 'mixedlist', 'int16', 'float32']
+INT64_KINDS = {'int64', 'npint64', 'arr0d', 'roint64', 'stridedint64'}
+
+
+def flag_impl(build, unit, fl):
+    T = ts().TimeArray
+
+    def run():
+        data = build()
+        before = operand_state(data)
+        o = T(data, time_unit=None if unit == 'none' else unit, copy=FLAGS[fl]())
+        r = 'ok ' + canon_O(o)
+        return r + ('' if operand_state(data) == before else ' ARGUMENT-CHANGED')
+    r = call(run)
+    return 'err ValueError' if r.startswith('err') and 'ValueError' in r else r
+
+
+def flag_cases(rng, n):
+    out = []
+    units = UNITS + ['none']
+    i = rng.randrange(len(units))
+    for rep in range(n):
+        for fl in FLAGS:
+            for kind in FLAG_KINDS:
+                unit = units[i % len(units)]
+                i += 1
+                ru = 's' if unit == 'none' else unit
+                tok, build, meta = gen_operand(rng, kind, ru, rng.randint(1, 3))
+                _, sc, xs = tok.split(':')
+                meta.update(op='ctorflag', unit=unit, flag=fl)
+                out.append(Case('C01 ctorflag %s %s %s %s %s' % (fl, unit, 'int64' if kind in INT64_KINDS else 'other', sc, xs),
+                                flag_impl(build, unit, fl), 'ctorflag/%s/%s' % (fl, kind), meta=meta))
+            for _ in range(2):   # a time object as data: the instant is kept under every flag value
+                u, sc, ps = gen_T(rng)
+                unit = units[i % len(units)]
+                i += 1
+                meta = {'op': 'ctorflag', 'kind': 'time', 'unit': unit, 'flag': fl, 'src': (u, sc, ps)}
+                out.append(Case('C01 ctorflagfrom %s %s %s' % (fl, unit, tok_T(u, sc, ps)),
+                                flag_impl(lambda: mk_T(u, sc, ps), unit, fl), 'ctorflag/%s/time' % fl, meta=meta))
+    return out
+
+
+def judge_flag(c, fail):
+    m = c.meta
+    fl, kind = m['flag'], m['kind']
+    if c.impl.endswith(' ARGUMENT-CHANGED'):
+        return fail('argument-changed', 'the constructor changed its data argument')
+    if kind == 'time':
+        u, sc, ps = m['src']
+        want_u = u if m['unit'] == 'none' else m['unit']
+        if c.impl.startswith('err'):
+            return fail('raises', 're-wrapping a time object with copy=%s raised' % fl)
+        r = parse_O(c.impl[3:])
+        lab = r[3] if r else None
+        if r is None or (r[1], r[2]) != (sc, list(ps)):
+            return fail('instant-changed', 're-wrapping with copy=%s changed the instant' % fl)
+        if r[0] != want_u:
+            return fail('unit', 'label %s, want %s' % (r[0], want_u))
+        if lab != str(FACTOR[want_u]):
+            return fail('bare-number-not-read-in-own-unit', 'reads bare numbers with factor %s under label %s' % (lab, want_u))
+        return None
+    unit = 's' if m['unit'] == 'none' else m['unit']
+    vals = m['vals']
+    if kind in FLOAT_KINDS or any(isinstance(v, float) for v in vals):
+        vals = [float(v) for v in vals]
+    if fl in FLAG_MEANS_NOCOPY:
+        if kind not in INT64_KINDS:
+            return None if c.impl.startswith('err ValueError') else \
+                fail('accepted', 'copy=%s (equal to False) with data that are not int64 base units was not refused with ValueError' % fl)
+        bounds = [(Fr(v), Fr(v)) for v in vals]           # taken as picoseconds
+    else:
+        bounds = [exp_ps_num(v, unit) for v in vals]      # the property's main clause: value x unit
+    if c.impl.startswith('err'):
+        return fail('raises', 'building a time value from numbers with copy=%s raised: %s' % (fl, c.impl[:80]))
+    r = parse_O(c.impl[3:])
+    if r is None:
+        return fail('not-whole-ps', 'constructor result is not an integer-picosecond time object')
+    lab = r[3]
+    if r[0] != unit or r[1] != m['scalar'] or len(r[2]) != len(vals):
+        return fail('unit-or-shape', 'unit/shape of the constructed object is wrong')
+    for v, p_, (lo, hi) in zip(vals, r[2], bounds):
+        if not (lo <= p_ <= hi):
+            return fail('value', 'copy=%s: payload %d ps for %r %s, expected %s' % (fl, p_, v, unit, lo if lo == hi else (lo, hi)))
+    if lab != str(FACTOR[unit]):
+        return fail('bare-number-not-read-in-own-unit', 'reads bare numbers with factor %s under label %s' % (lab, unit))
+    return None
+
+
+# ------------------------------------------------------------------ round 4 (L3, sharper): raw flag values for EVERY optional parameter
+# One call per (constructor / method, parameter, raw value): is the value read as GIVEN (the call behaves as with the plain
+# python number the value equals — False == 0, np.True_ == 1 — or, for a value that is no number, at least not as if the
+# parameter had been left at None) or as NOT GIVEN (the call behaves exactly as with None)?  The model answers from the
+# GENERATED comparison forms of the parameter's tests (`paramGiven`); the oracle from the documented meaning
+# (optional parameter: None = not given, anything else is a value; documented booleans: truthiness).
+def _outcome(o):
+    t = ts()
+    if isinstance(o, t.TimeSeries):
+        return 'S|%s|%s|%s|%s|%r|%r' % (canon_T(o.time), canon_T(o.t0), canon_T(o.sampling_interval), float(o.sampling_rate), o.time_unit, o.metadata)
+    if isinstance(o, t.UniformTime):
+        return 'U|%s|%s|%s|%s|%r' % (canon_T(o), canon_T(o.t0), canon_T(o.sampling_interval), canon_T(o.duration), o.time_unit)
+    if isinstance(o, t.TimeArray):
+        return 'T|' + canon_O(o)
+    if isinstance(o, t.Epochs):
+        return 'E|%s|%s|%s|%s|%r|%r' % (canon_T(o.start), canon_T(o.stop), canon_T(o.duration), canon_T(o.offset), o.time_unit,
+                                       getattr(o, 'static', '<unset>'))
+    if isinstance(o, t.Events):
+        return 'V|%s|%r|%r' % (canon_T(o.time), getattr(o, 'data', '<unset>'), getattr(o, 'index', '<unset>'))
+    a = np.asarray(o)
+    return 'A|%s|%r' % (a.dtype, a.tolist())
+
+
+def _src_axis(unit='ms'):
+    return ts().UniformTime(t0=3, sampling_interval=2, length=4, time_unit=unit)
+
+
+def _cells():
+    t = ts()
+    T, U, TS, E, EV = t.TimeArray, t.UniformTime, t.TimeSeries, t.Epochs, t.Events
+    z = lambda: np.zeros(4)
+    return {
+        ('UniformTime.__new__', 't0'): lambda v: U(_src_axis(), t0=v),
+        ('UniformTime.__new__', 'sampling_interval'): lambda v: U(_src_axis(), sampling_interval=v),
+        ('UniformTime.__new__', 'sampling_rate'): lambda v: U(_src_axis('s'), sampling_rate=v),
+        ('UniformTime.__new__', 'duration'): lambda v: U(_src_axis(), duration=v),
+        ('UniformTime.__new__', 'length'): lambda v: U(_src_axis(), length=v),
+        ('UniformTime.__new__', 'time_unit'): lambda v: U(_src_axis(), time_unit=v),
+        ('TimeSeries.__init__', 't0'): lambda v: TS(z(), time=_src_axis('s'), t0=v),
+        ('TimeSeries.__init__', 'sampling_interval'): lambda v: TS(z(), time=_src_axis('s'), sampling_interval=v),
+        ('TimeSeries.__init__', 'sampling_rate'): lambda v: TS(z(), time=_src_axis('s'), sampling_rate=v),
+        ('TimeSeries.__init__', 'duration'): lambda v: TS(z(), duration=v),
+        ('TimeSeries.__init__', 'time_unit'): lambda v: TS(z(), time=_src_axis(), time_unit=v),
+        ('TimeSeriesBase.__init__', 'metadata'): lambda v: TS(z(), sampling_interval=1, metadata=v),
+        ('TimeArray.__new__', 'time_unit'): lambda v: T(mk_T('ms', False, [5, 7]), time_unit=v),
+        ('Epochs.__init__', 't0'): lambda v: E(t0=v, stop=5),
+        ('Epochs.__init__', 'start'): lambda v: E(t0=2, start=v, stop=5),
+        ('Epochs.__init__', 'stop'): lambda v: E(t0=-3, stop=v, duration=4),
+        ('Epochs.__init__', 'duration'): lambda v: E(t0=-3, stop=2, duration=v),
+        ('Epochs.__init__', 'offset'): lambda v: E(t0=2, stop=5, offset=v),
+        ('Epochs.__init__', 'static'): lambda v: E(t0=2, stop=5, static=v),
+        ('Events.__init__', 'labels'): lambda v: EV([1, 2], labels=v),
+        ('Events.__init__', 'indices'): lambda v: EV([1, 2], indices=v),
+        ('TimeArray._index_closest', 'tol'): lambda v: T([1, 2, 3], time_unit='s').index_at(T(np.int64(10**12 + 1), time_unit='ps'), tol=v),   # 1 ps off a sample
+        ('TimeArray.max', 'axis'): lambda v: T([1, 5, 3], time_unit='ms').max(axis=v),
+        ('TimeArray.max', 'out'): lambda v: T([1, 5, 3], time_unit='ms').max(out=v),
+        ('UniformTime.max', 'axis'): lambda v: _src_axis().max(axis=v),
+        ('UniformTime.max', 'out'): lambda v: _src_axis().max(out=v),
+        ('UniformTime.min', 'axis'): lambda v: _src_axis().min(axis=v),
+        ('UniformTime.min', 'out'): lambda v: _src_axis().min(out=v),
+        ('UniformTime.index_at', 'boolean'): lambda v: _src_axis().index_at(T([5, 7], time_unit='ms'), boolean=v),
+    }
+
+
+FLAGARG_OPAQUE = {('TimeSeriesBase.__init__', 'metadata'), ('Epochs.__init__', 'static')}   # any object is a value: given = not as with None
+FLAGARG_ZERO_IS_DEFAULT = {('TimeSeries.__init__', 'duration'), ('Epochs.__init__', 'offset')}
+FLAGARG_TRUTHY = {('UniformTime.index_at', 'boolean'), ('Events.__init__', 'indices')}   # documented booleans / list-or-None
+FLAG_NUMBER = {'false': 0, 'int0': 0, 'float0': 0, 'npfalse': 0, 'npbool0': 0, 'true': 1, 'int1': 1, 'nptrue': 1}
+FLAG_TRUTH = {'none': False, 'false': False, 'true': True, 'int0': False, 'float0': False, 'estr': False, 'elist': False,
+              'npfalse': False, 'npbool0': False, 'nptrue': True, 'int1': True, 'strfalse': True}
+
+
+def flagarg_classify(fn, param, fl):
+    """'given' | 'notgiven' | 'other …' | None (the cell cannot tell: given-as-that-value and not-given behave alike)"""
+    f = _cells()[(fn, param)]
+
+    def out(v):
+        import warnings
+        with warnings.catch_warnings(), np.errstate(all='ignore'):
+            warnings.simplefilter('ignore')
+            r = call(lambda: 'ok ' + _outcome(f(v)))
+        return 'err' if r.startswith('err') else r
+    r_v, r_none = out(FLAGS[fl]()), out(None)
+    if fl == 'none':
+        return 'notgiven'
+    if (fn, param) in FLAGARG_TRUTHY:
+        r_ref = out(True)
+    elif fl in FLAG_NUMBER and (fn, param) not in FLAGARG_OPAQUE:
+        r_ref = out(FLAG_NUMBER[fl])
+    else:                       # '', [], 'False': no number — given means: not treated as if it were None
+        if r_none == 'err':
+            return None
+        return 'notgiven' if r_v == r_none else 'given'
+    if r_ref == r_none and ((fn, param) in FLAGARG_ZERO_IS_DEFAULT and FLAG_NUMBER.get(fl) == 0):
+        return None             # by design of the cell: the number 0 IS the default (or is refused like None)
+    if r_v == r_none:
+        return 'notgiven'
+    if r_v == r_ref:
+        return 'given'
+    return 'other ' + r_v[:120]
+
+
+def flagarg_cases():
+    out = []
+    for (fn, param) in _cells():
+        for fl in FLAGS:
+            cl = flagarg_classify(fn, param, fl)
+            if cl is None:
+                continue
+            out.append(Case('C01 flagarg %s %s %s' % (fn, param, fl), 'ok ' + cl, 'flagarg/%s/%s/%s' % (fn, param, fl),
+                            meta={'op': 'flagarg', 'fn': fn, 'param': param, 'flag': fl}))
+    return out
+
+
+def judge_flagarg(c, fail):
+    m = c.meta
+    if (m['fn'], m['param']) in FLAGARG_TRUTHY:
+        want = 'given' if FLAG_TRUTH[m['flag']] else 'notgiven'
+    else:
+        want = 'notgiven' if m['flag'] == 'none' else 'given'
+    got = c.impl[3:]
+    if got == want:
+        return None
+    if got == 'notgiven':
+        return fail('taken-as-not-given', '%s(%s=%s) behaves as if the parameter had been left at None' % (m['fn'], m['param'], m['flag']))
+    if got == 'given':
+        return fail('taken-as-given', '%s(%s=%s) does not behave as with None / a false flag' % (m['fn'], m['param'], m['flag']))
+    return fail('not-taken-as-the-number', '%s(%s=%s) behaves neither as with the plain number the value equals nor as with None: %s'
+                % (m['fn'], m['param'], m['flag'], got))
+
+
 # ------------------------------------------------------------------ oracle (Fractions; never the Lean model)
 def parse_T(s):
     """'ok T:unit:sc:ps' -> (unit, scalar, [int]) or None when not an integer-payload time object"""
@@ -1197,6 +1439,10 @@ def check_case(c):
                        {'line': c.line, 'clause': c.clause, 'meta': m}, case=c)
     if op == 'hist':
         return judge_hist(c, fail)
+    if op == 'ctorflag':
+        return judge_flag(c, fail)
+    if op == 'flagarg':
+        return judge_flagarg(c, fail)
     if op == 'ctor':
         unit = 's' if m['unit'] == 'none' else m['unit']
         vals = m['vals']
@@ -1351,7 +1597,11 @@ def rebuild_case(line, clause, m):
         if k in ('list', 'mixedlist'):
             return list(v)
         return build_arr(v, k)
-    if op == 'ctor':
+    if op == 'flagarg':
+        impl = 'ok ' + str(flagarg_classify(m['fn'], m['param'], m['flag']))
+    elif op == 'ctorflag':
+        impl = flag_impl((lambda: mk_T(*m['src'])) if m['kind'] == 'time' else operand, m['unit'], m['flag'])
+    elif op == 'ctor':
         impl = call(lambda: 'ok ' + canon_T(T(operand(), time_unit=None if m['unit'] == 'none' else m['unit'])))
     elif op == 'ctorfrom':
         impl = call(lambda: 'ok ' + canon_T(T(mk_T(*m['src']), time_unit=None if m['unit'] == 'none' else m['unit'])))
